@@ -121,6 +121,7 @@ class Monitor:
         self.bad = world.monitor_violations
         self.waited = False
         self.struck = set()
+        self.states = set()
 
     def __call__(self, seam, loop, target, signal):
         world = self.world
@@ -247,6 +248,10 @@ class Monitor:
                             "%s waits for %r of %s although %r is available as the clock "
                             "advances to %r" % (block["actor"], block["amounts"], name, levels,
                                                 self.last_time)))
+        phases = [b["phase"] for b in self.blocks.values()]
+        self.states.add((min(phases.count("acquiring"), 3), min(phases.count("held"), 3),
+                         min(phases.count("releasing"), 2), min(phases.count("torn"), 2),
+                         advanced))
         if len(self.bad) > 10:
             del self.bad[10:]
 
@@ -343,4 +348,5 @@ def observe(rec):
     plan = rec.case.get("plan") or []
     sig.append(tuple((f.get("as", f["kind"]), f.get("victim"), f["tick"]) for f in plan))
     return {"stats": stats, "signature": tuple(sig),
-            "nontrivial": monitor.waited or bool(monitor.struck)}
+            "nontrivial": monitor.waited or bool(monitor.struck),
+            "states": sorted(monitor.states)}
